@@ -120,9 +120,11 @@ def combine(key, codes):
     return h
 
 
-def make_fn(named, none_pids, none_codes, log=None):
+def make_fn(named, none_pids, none_codes, log=None, variant="fresh"):
     """fn(key?, item, *others): injective (mod 2^31-1) elementwise hash of the key and the arguments; None for the
-    entries chosen by the case (tensor / non-tensor entries by id, nodes by their structural code)"""
+    entries chosen by the case (tensor / non-tensor entries by id, nodes by their structural code).
+    variant (tensor items only): "fresh" returns a new tensor; "ident" returns its argument untouched; "mutate" writes
+    the hash into its argument in place and returns the argument; "mutate_none" writes it and returns None"""
     def fn(*a):
         if named:
             key, item, others = a[0], a[1], a[2:]
@@ -139,11 +141,16 @@ def make_fn(named, none_pids, none_codes, log=None):
             log.append(key if not isinstance(key, tuple) else list(key))
         if isnone:
             return None
+        if variant == "ident" and isinstance(item, torch.Tensor):
+            return item
         codes = [real_code(item)] + [real_code(x) for x in others]
         h = combine(key, codes)
         if isinstance(h, torch.Tensor):
             if isinstance(item, torch.Tensor):
                 h = h.to(item.dtype)
+                if variant in ("mutate", "mutate_none") and h.shape == item.shape:
+                    item.copy_(h)
+                    return item if variant == "mutate" else None
             return h.clone()
         bs = tuple(item.batch_size) if hasattr(item, "batch_size") else ()
         return torch.full(bs + (1,), h, dtype=torch.int64)
@@ -246,16 +253,29 @@ def build_operand(t, kindname, B, role="self"):
         if role != "self":
             apply_locks(td, t)
             return td
-        # a parent with one more leading dim of size 2 whose row 0 is the abstract tree
+        ik = getattr(B, "sub_index", "int")
         junk = td.apply(lambda x: x * 0 - 1)
-        parent = torch.stack([td, junk], 0).contiguous()
+        bs = list(t[2][0])
+        if ik == "int" or not bs:
+            # a parent with one more leading dim of size 2 whose row 0 is the abstract tree
+            parent = torch.stack([td, junk], 0).contiguous()
+            idx, B.junk_idx = 0, 1
+        else:
+            # a parent with twice as many rows along dim 0: the even rows are the abstract tree, the odd rows junk; the index
+            # picks the even rows as a slice (views) or as a list / integer tensor / boolean mask (gathered copies)
+            n = bs[0]
+            parent = torch.stack([td, junk], 1).reshape(2 * n, *bs[1:]).contiguous()
+            rows = list(range(0, 2 * n, 2))
+            idx = {"slice": slice(0, 2 * n, 2), "list": rows, "tensor": torch.tensor(rows),
+                   "mask": torch.tensor([i % 2 == 0 for i in range(2 * n)])}[ik]
+            B.junk_idx = slice(1, 2 * n, 2)
         # identity maps refer to the parent's storages now
         for (path, e) in walk(t):
             if e[0] == "L":
                 x = parent.get(path)
                 B.ptrs[x.untyped_storage().data_ptr()] = e[1]
         B.keep.append(parent)
-        sub = parent._get_sub_tensordict(0)
+        sub = parent._get_sub_tensordict(idx)
         B.keep.append(sub)
         B.parent = parent
         if t[2][3]:
